@@ -8,10 +8,20 @@
 //!       item = has_basis basis has_size size has_min min has_max max grow shrink ms_auto ms me_auto me ps pe bs be measure
 //!   R = container main, container cross, then (location.main, size.main) per child -- unrounded, f32 bit patterns.
 //! `vh c07 oracle <seed> <n>`: the two laws of the property as predicates on unrounded layouts of random trees.
+//!
+//! `vh c07 wcases <seed> <n>` / `vh c07 wone <ints..>`: second correspondence class (K2): multi-line containers.  A root flex
+//! container (nowrap / wrap / wrap-reverse, any direction, justify-content, align-content, align-items, definite main size,
+//! definite or auto cross size, optional min/max main size, padding/border, both gaps) whose children are leaves: flex-basis /
+//! main size / aspect ratio + cross size / measured content (fixed or "echo" measure function) / nothing; min/max sizes on both
+//! axes, grow/shrink, length/auto margins on both axes, padding/border on both axes, overflow hidden/clip, content-box,
+//! align-self.
+//!   C = dir wrap justify align_content align_items size_main has_cross size_cross has_min min_main has_max max_main
+//!       pms pme bms bme pcs pce bcs bce gap_main gap_cross n   (23 ints), then 41 ints per child (see W_ITEM below)
+//!   R = container main, cross; per child: location main, cross; size main, cross; margin main start/end, cross start/end.
 use crate::rng::Rng;
 use crate::treegen::{self, Ctx, GenCfg, NodeSpec};
 use taffy::prelude::*;
-use taffy::{Overflow, Point, Rect};
+use taffy::{BoxSizing, Overflow, Point, Rect};
 
 const JUSTIFY: [AlignContent; 9] = [
     AlignContent::Start,
@@ -255,6 +265,403 @@ fn corpus() -> Vec<Vec<i64>> {
             item(None, Some(90.0), None, None, 0.0, 1.0, Some(0.0), Some(0.0), [0.0; 4], 60.0),
             item(Some(120.0), Some(10.0), None, Some(80.0), 2.5, 2.5, Some(0.0), Some(0.0), [2.0, 0.0, 0.0, 1.0], 5.0),
         ]));
+    }
+    v
+}
+
+
+// ------------------------------------------------------------------------------------------------ K2: multi-line containers
+
+const ALIGN: [AlignItems; 6] = [AlignItems::Start, AlignItems::End, AlignItems::FlexStart, AlignItems::FlexEnd, AlignItems::Center, AlignItems::Stretch];
+const W_HEAD: usize = 23;
+/// has_basis basis  has_size_m size_m  has_size_c size_c  has_min_m min_m  has_max_m max_m  has_min_c min_c  has_max_c max_c
+/// has_aspect aspect  grow shrink  ms_auto ms  me_auto me  cs_auto cs  ce_auto ce  pms pme bms bme pcs pce bcs bce
+/// overflow_x overflow_y  box_sizing  align_self  ctx_kind ctx_a ctx_b
+const W_ITEM: usize = 41;
+
+fn run_wrap_case(c: &[i64]) -> Vec<i64> {
+    let dir = DIRS[c[0] as usize];
+    let row = is_row(dir);
+    let wrap = match c[1] {
+        0 => FlexWrap::NoWrap,
+        1 => FlexWrap::Wrap,
+        _ => FlexWrap::WrapReverse,
+    };
+    let content = |z: i64| if z < 0 { None } else { Some(JUSTIFY[z as usize]) };
+    let align = |z: i64| if z < 0 { None } else { Some(ALIGN[z as usize]) };
+    let lp = |z: i64| LengthPercentage::length(f(z));
+    let dim = |has: i64, z: i64| if has != 0 { Dimension::length(f(z)) } else { Dimension::auto() };
+    let lpa = |auto: i64, z: i64| if auto != 0 { LengthPercentageAuto::auto() } else { LengthPercentageAuto::length(f(z)) };
+    let ov = |z: i64| match z {
+        0 => Overflow::Visible,
+        1 => Overflow::Clip,
+        _ => Overflow::Hidden,
+    };
+    let n = c[22] as usize;
+    let mut t: TaffyTree<Ctx> = TaffyTree::new();
+    t.disable_rounding();
+    let mut kids = vec![];
+    for i in 0..n {
+        let it = &c[W_HEAD + i * W_ITEM..W_HEAD + (i + 1) * W_ITEM];
+        let style = Style {
+            flex_basis: dim(it[0], it[1]),
+            size: size_mc(row, dim(it[2], it[3]), dim(it[4], it[5])),
+            min_size: size_mc(row, dim(it[6], it[7]), dim(it[10], it[11])),
+            max_size: size_mc(row, dim(it[8], it[9]), dim(it[12], it[13])),
+            aspect_ratio: if it[14] != 0 { Some(f(it[15])) } else { None },
+            flex_grow: f(it[16]),
+            flex_shrink: f(it[17]),
+            margin: rect_mc(row, lpa(it[18], it[19]), lpa(it[20], it[21]), lpa(it[22], it[23]), lpa(it[24], it[25])),
+            padding: rect_mc(row, lp(it[26]), lp(it[27]), lp(it[30]), lp(it[31])),
+            border: rect_mc(row, lp(it[28]), lp(it[29]), lp(it[32]), lp(it[33])),
+            overflow: Point { x: ov(it[34]), y: ov(it[35]) },
+            box_sizing: if it[36] == 1 { BoxSizing::ContentBox } else { BoxSizing::BorderBox },
+            align_self: align(it[37]),
+            ..Default::default()
+        };
+        let id = match it[38] {
+            1 => t.new_leaf_with_context(style, Ctx::Fixed(f(it[39]), f(it[40]))).unwrap(),
+            3 => t.new_leaf_with_context(style, Ctx::Echo(f(it[39]))).unwrap(),
+            _ => t.new_leaf(style).unwrap(),
+        };
+        kids.push(id);
+    }
+    let style = Style {
+        display: Display::Flex,
+        flex_direction: dir,
+        flex_wrap: wrap,
+        justify_content: content(c[2]),
+        align_content: content(c[3]),
+        align_items: align(c[4]),
+        size: size_mc(row, Dimension::length(f(c[5])), dim(c[6], c[7])),
+        min_size: size_mc(row, dim(c[8], c[9]), Dimension::auto()),
+        max_size: size_mc(row, dim(c[10], c[11]), Dimension::auto()),
+        padding: rect_mc(row, lp(c[12]), lp(c[13]), lp(c[16]), lp(c[17])),
+        border: rect_mc(row, lp(c[14]), lp(c[15]), lp(c[18]), lp(c[19])),
+        gap: size_mc(row, lp(c[20]), lp(c[21])),
+        ..Default::default()
+    };
+    let root = t.new_with_children(style, &kids).unwrap();
+    // The "echo" measure function answers a query with a known width differently from the query that produced that width, so the
+    // cache's "known dimension equals the cached size" rule (lossy key, known finding of C01/C17) changes the result: such cases
+    // run with the exact-key memo (hook), every other case with the real cache.
+    let any_echo = (0..n).any(|i| c[W_HEAD + i * W_ITEM + 38] == 3);
+    taffy::verif_hooks::set_exact_key(any_echo);
+    treegen::compute(&mut t, root, Size::MAX_CONTENT);
+    taffy::verif_hooks::set_exact_key(false);
+    let main_sz = |s: Size<f32>| if row { s.width } else { s.height };
+    let cross_sz = |s: Size<f32>| if row { s.height } else { s.width };
+    let rl = t.unrounded_layout(root);
+    let mut r = vec![b(main_sz(rl.size)), b(cross_sz(rl.size))];
+    for k in kids {
+        let l = t.unrounded_layout(k);
+        let (lm, lc) = if row { (l.location.x, l.location.y) } else { (l.location.y, l.location.x) };
+        let m = l.margin;
+        let (ms, me, cs, ce) = if row { (m.left, m.right, m.top, m.bottom) } else { (m.top, m.bottom, m.left, m.right) };
+        r.extend([b(lm), b(lc), b(main_sz(l.size)), b(cross_sz(l.size)), b(ms), b(me), b(cs), b(ce)]);
+    }
+    r
+}
+
+struct WItem {
+    basis: Option<f32>,
+    size_m: Option<f32>,
+    size_c: Option<f32>,
+    min_m: Option<f32>,
+    max_m: Option<f32>,
+    min_c: Option<f32>,
+    max_c: Option<f32>,
+    aspect: Option<f32>,
+    grow: f32,
+    shrink: f32,
+    margin: [Option<f32>; 4], // main start, main end, cross start, cross end; None = auto
+    pb: [f32; 8],             // pms pme bms bme pcs pce bcs bce
+    overflow: [i64; 2],
+    content_box: bool,
+    align_self: i64,
+    ctx: (i64, f32, f32),
+}
+
+impl WItem {
+    fn plain(basis: f32) -> WItem {
+        WItem {
+            basis: Some(basis),
+            size_m: None,
+            size_c: Some(10.0),
+            min_m: Some(0.0),
+            max_m: None,
+            min_c: None,
+            max_c: None,
+            aspect: None,
+            grow: 0.0,
+            shrink: 0.0,
+            margin: [Some(0.0); 4],
+            pb: [0.0; 8],
+            overflow: [0, 0],
+            content_box: false,
+            align_self: -1,
+            ctx: (0, 0.0, 0.0),
+        }
+    }
+    fn enc(&self) -> Vec<i64> {
+        let o = |x: Option<f32>| vec![x.is_some() as i64, x.map(b).unwrap_or(0)];
+        let mg = |x: Option<f32>| vec![x.is_none() as i64, x.map(b).unwrap_or(0)];
+        let mut v = vec![];
+        for x in [self.basis, self.size_m, self.size_c, self.min_m, self.max_m, self.min_c, self.max_c, self.aspect] {
+            v.extend(o(x));
+        }
+        v.push(b(self.grow));
+        v.push(b(self.shrink));
+        for x in self.margin {
+            v.extend(mg(x));
+        }
+        v.extend(self.pb.iter().map(|x| b(*x)));
+        v.extend(self.overflow);
+        v.push(self.content_box as i64);
+        v.push(self.align_self);
+        v.push(self.ctx.0);
+        v.push(b(self.ctx.1));
+        v.push(b(self.ctx.2));
+        assert_eq!(v.len(), W_ITEM);
+        v
+    }
+}
+
+struct WCont {
+    dir: i64,
+    wrap: i64,
+    justify: i64,
+    align_content: i64,
+    align_items: i64,
+    main: f32,
+    cross: Option<f32>,
+    min_m: Option<f32>,
+    max_m: Option<f32>,
+    pb: [f32; 8],
+    gap_m: f32,
+    gap_c: f32,
+}
+
+impl WCont {
+    fn plain(dir: i64, wrap: i64, main: f32, gap_m: f32) -> WCont {
+        WCont { dir, wrap, justify: -1, align_content: 0, align_items: 0, main, cross: Some(100.0), min_m: None, max_m: None, pb: [0.0; 8], gap_m, gap_c: 0.0 }
+    }
+    fn enc(&self, items: &[WItem]) -> Vec<i64> {
+        let o = |x: Option<f32>| vec![x.is_some() as i64, x.map(b).unwrap_or(0)];
+        let mut v = vec![self.dir, self.wrap, self.justify, self.align_content, self.align_items, b(self.main)];
+        v.extend(o(self.cross));
+        v.extend(o(self.min_m));
+        v.extend(o(self.max_m));
+        v.extend(self.pb.iter().map(|x| b(*x)));
+        v.push(b(self.gap_m));
+        v.push(b(self.gap_c));
+        v.push(items.len() as i64);
+        assert_eq!(v.len(), W_HEAD);
+        for it in items {
+            v.extend(it.enc());
+        }
+        v
+    }
+}
+
+fn gen_wrap_case(rng: &mut Rng) -> Vec<i64> {
+    let tenths = rng.chance(1, 3);
+    let exact_fit = rng.chance(1, 4);
+    let dir = rng.below(4) as i64;
+    let wrap = match rng.below(8) {
+        0 if !exact_fit => 0,
+        1 | 2 => 2,
+        _ => 1,
+    };
+    let n = if exact_fit { 2 + rng.below(7) as usize } else { 1 + rng.below(8) as usize };
+    let mut ct = WCont::plain(dir, wrap, 0.0, 0.0);
+    ct.justify = if rng.chance(1, 3) { -1 } else { rng.below(9) as i64 };
+    ct.align_content = if rng.chance(1, 2) { 0 } else if rng.chance(1, 4) { -1 } else { rng.below(9) as i64 };
+    ct.align_items = if exact_fit || rng.chance(3, 5) { 0 } else if rng.chance(1, 3) { -1 } else { rng.below(6) as i64 };
+    ct.cross = if rng.chance(7, 10) { Some(len(rng, tenths, 250)) } else { None };
+    if rng.chance(1, 2) {
+        ct.gap_m = len(rng, tenths, 12);
+    }
+    if rng.chance(1, 2) {
+        ct.gap_c = len(rng, tenths, 12);
+    }
+    if !exact_fit && rng.chance(1, 2) {
+        for k in 0..8 {
+            if rng.chance(2, 3) {
+                ct.pb[k] = len(rng, tenths, 10);
+            }
+        }
+    }
+    let mut items = vec![];
+    for _ in 0..n {
+        let mut it = WItem::plain(0.0);
+        let small = rng.chance(1, 6);
+        let mut dimv = |rng: &mut Rng| if small { len(rng, tenths, 3) } else { len(rng, tenths, 120) };
+        if exact_fit {
+            // plain item: hypothetical outer size = flex basis (min 0, no max, no padding, no margin)
+            it.basis = Some(if rng.chance(1, 8) { 0.0 } else { rng.below(60) as f32 });
+            it.size_c = Some(1.0 + len(rng, tenths, 40));
+            it.grow = *rng.pick(&FACTORS);
+            it.shrink = *rng.pick(&FACTORS);
+            items.push(it);
+            continue;
+        }
+        let kind = rng.below(10);
+        it.basis = None;
+        it.min_m = None;
+        match kind {
+            0..=3 => {
+                it.basis = Some(dimv(rng));
+                if rng.chance(1, 3) {
+                    it.size_m = Some(dimv(rng));
+                }
+            }
+            4 | 5 => it.size_m = Some(dimv(rng)),
+            _ => {}
+        }
+        it.size_c = if kind == 6 || rng.chance(7, 10) { Some(1.0 + len(rng, tenths, 60)) } else { None };
+        if kind == 6 || rng.chance(1, 12) {
+            it.aspect = Some(*rng.pick(&[0.5, 1.0, 2.0, 1.5]));
+        }
+        if rng.chance(1, 4) {
+            it.min_m = Some(len(rng, tenths, 100));
+        }
+        if rng.chance(1, 4) {
+            it.max_m = Some(len(rng, tenths, 140));
+        }
+        if rng.chance(1, 8) {
+            it.min_c = Some(len(rng, tenths, 60));
+        }
+        if rng.chance(1, 8) {
+            it.max_c = Some(len(rng, tenths, 80));
+        }
+        it.grow = *rng.pick(&FACTORS);
+        it.shrink = *rng.pick(&FACTORS);
+        if rng.chance(1, 3) {
+            for k in 0..4 {
+                let p_auto = if k < 2 { 5 } else { 8 };
+                it.margin[k] = if rng.chance(1, p_auto) { None } else { Some(len(rng, tenths, if k < 2 { 15 } else { 10 })) };
+            }
+        }
+        if rng.chance(1, 4) {
+            for k in 0..8 {
+                if rng.chance(2, 3) {
+                    it.pb[k] = len(rng, tenths, 8);
+                }
+            }
+        }
+        if rng.chance(1, 6) {
+            it.overflow = [rng.below(3) as i64, rng.below(3) as i64];
+        }
+        it.content_box = rng.chance(1, 8);
+        it.align_self = if rng.chance(4, 5) { -1 } else { rng.below(6) as i64 };
+        it.ctx = if kind == 7 || kind == 8 || rng.chance(1, 3) {
+            (1, len(rng, tenths, 100), len(rng, tenths, 50))
+        } else if rng.chance(1, 10) {
+            (3, len(rng, tenths, 100), 0.0)
+        } else {
+            (0, 0.0, 0.0)
+        };
+        items.push(it);
+    }
+    if exact_fit {
+        // the first k items fill the line exactly (when they are all plain): the break test must be `>`, not `>=`
+        let k = if rng.chance(1, 6) { 1 } else { 2 + rng.below(n as u64 - 1) as usize };
+        let sum: f32 = items[..k].iter().map(|it| it.basis.unwrap_or(it.size_m.unwrap_or(0.0))).sum::<f32>() + ct.gap_m * (k as f32 - 1.0);
+        ct.main = sum;
+    } else {
+        ct.main = if rng.chance(1, 5) { len(rng, tenths, 60) } else { 20.0 + len(rng, tenths, 380) };
+        if rng.chance(1, 8) {
+            ct.min_m = Some(len(rng, tenths, 300));
+        }
+        if rng.chance(1, 8) {
+            ct.max_m = Some(len(rng, tenths, 300));
+        }
+    }
+    ct.enc(&items)
+}
+
+fn wrap_corpus() -> Vec<Vec<i64>> {
+    let mut v = vec![];
+    let p = WItem::plain;
+    for dir in 0..4 {
+        for wrap in 0..3 {
+            // three lines: 40+40 | 40+40 | 40 in 100 with gap 10; 40+40+gap 10 = 90 <= 100, a third item would make 140
+            v.push(WCont::plain(dir, wrap, 100.0, 10.0).enc(&[p(40.0), p(40.0), p(40.0), p(40.0), p(40.0)]));
+            // exact fit: 30+30+30 + 2*5 = 100 = available: one line (the test is `>`), the 4th item wraps
+            v.push(WCont::plain(dir, wrap, 100.0, 5.0).enc(&[p(30.0), p(30.0), p(30.0), p(30.0)]));
+            // a single item wider than the container gets a line of its own; zero-sized items join a full line
+            v.push(WCont::plain(dir, wrap, 50.0, 0.0).enc(&[p(80.0), p(50.0), p(0.0), p(0.0), p(10.0)]));
+            // without the gap the first three would fit: 30+30+30 = 90 <= 95, with the gap 100 > 95
+            v.push(WCont::plain(dir, wrap, 95.0, 5.0).enc(&[p(30.0), p(30.0), p(30.0)]));
+        }
+    }
+    // growing and shrinking inside lines, different cross sizes, every align-content
+    for ac in -1..9 {
+        for wrap in 1..3 {
+            let mut ct = WCont::plain(0, wrap, 100.0, 4.0);
+            ct.align_content = ac;
+            ct.gap_c = 3.0;
+            ct.cross = Some(120.0);
+            let mut a = p(50.0);
+            a.grow = 1.0;
+            a.size_c = Some(20.0);
+            let mut bb = p(60.0);
+            bb.shrink = 1.0;
+            bb.size_c = Some(30.0);
+            let mut cc = p(120.0);
+            cc.shrink = 1.0;
+            cc.min_m = None;
+            cc.ctx = (1, 70.0, 9.0);
+            cc.size_c = None;
+            v.push(ct.enc(&[a, bb, cc, p(10.0)]));
+        }
+    }
+    // flex base size cases: basis wins over size; size; aspect ratio * cross size; content; nothing -- in a wrapping row and column
+    for dir in 0..2 {
+        let mut a = p(30.0);
+        a.size_m = Some(70.0);
+        let mut s = p(0.0);
+        s.basis = None;
+        s.size_m = Some(45.0);
+        s.min_m = None;
+        let mut ar = p(0.0);
+        ar.basis = None;
+        ar.min_m = None;
+        ar.aspect = Some(2.0);
+        ar.size_c = Some(20.0);
+        let mut ct_ = p(0.0);
+        ct_.basis = None;
+        ct_.min_m = None;
+        ct_.size_c = None;
+        ct_.ctx = (1, 33.0, 12.0);
+        ct_.pb = [1.0, 2.0, 3.0, 4.0, 1.0, 1.0, 2.0, 2.0];
+        let mut none = p(0.0);
+        none.basis = None;
+        none.min_m = None;
+        let mut hid = p(0.0);
+        hid.basis = None;
+        hid.min_m = None;
+        hid.size_m = Some(80.0);
+        hid.shrink = 1.0;
+        hid.overflow = [2, 2];
+        hid.ctx = (1, 60.0, 5.0);
+        let mut vis = p(0.0);
+        vis.basis = None;
+        vis.min_m = None;
+        vis.size_m = Some(80.0);
+        vis.shrink = 1.0;
+        vis.ctx = (1, 60.0, 5.0);
+        v.push(WCont::plain(dir, 1, 100.0, 0.0).enc(&[a, s, ar, ct_, none, hid, vis]));
+        // pb-floor: max below padding+border: hypothetical size is floored by padding+border, the loop's clamp is not
+        let mut x = p(50.0);
+        x.min_m = Some(5.0);
+        x.max_m = Some(10.0);
+        x.shrink = 1.0;
+        x.pb = [20.0, 0.0, 0.0, 0.0, 0.0, 0.0, 0.0, 0.0];
+        let mut y = p(100.0);
+        y.shrink = 1.0;
+        v.push(WCont::plain(dir, 1, 100.0, 0.0).enc(&[y, x]));
     }
     v
 }
@@ -693,18 +1100,19 @@ fn oracle_sub(seed: u64, idx: u64, verbose: bool, sub: Option<usize>) -> (usize,
 
 pub fn main(args: &[String]) {
     match args[0].as_str() {
-        "cases" | "one" => {
+        "cases" | "one" | "wcases" | "wone" => {
             // The layout runs in a worker thread; a case that does not return within the watchdog period is reported as
             // `R -2` (the freeze/violation loop of a broken implementation may never exit) and the process ends there.
-            let cs: Vec<Vec<i64>> = if args[0] == "one" {
+            let wrapk = args[0].starts_with('w');
+            let cs: Vec<Vec<i64>> = if args[0] == "one" || args[0] == "wone" {
                 vec![args[1..].iter().map(|s| s.parse().unwrap()).collect()]
             } else {
                 let seed: u64 = args[1].parse().unwrap();
                 let n: u64 = args[2].parse().unwrap();
-                let mut v = corpus();
-                let mut rng = Rng::new(seed ^ 0xC07);
+                let mut v = if wrapk { wrap_corpus() } else { corpus() };
+                let mut rng = Rng::new(seed ^ if wrapk { 0xC07_2 } else { 0xC07 });
                 for _ in 0..n {
-                    v.push(gen_case(&mut rng));
+                    v.push(if wrapk { gen_wrap_case(&mut rng) } else { gen_case(&mut rng) });
                 }
                 v
             };
@@ -712,7 +1120,7 @@ pub fn main(args: &[String]) {
             let work = cs.clone();
             std::thread::spawn(move || {
                 for (i, c) in work.iter().enumerate() {
-                    let r = run_case(c);
+                    let r = if wrapk { run_wrap_case(c) } else { run_case(c) };
                     if tx.send((i, r)).is_err() {
                         return;
                     }
